@@ -12,5 +12,6 @@ CONSTANTS
   MaxResp = 3
   MaxCalls = 4
   Families = {"range"}
+  SizesForAll = FALSE
   Level = "export"
 INVARIANT Props
